@@ -43,6 +43,10 @@ class RenameAppLabel(BaseMutation):
             params.append(self.serialize_attr('legacy_app_label',
                                               self.legacy_app_label))
 
+        if self.model_names is not None:
+            params.append(self.serialize_attr('model_names',
+                                              sorted(self.model_names)))
+
         return params
 
     def is_mutable(self, app_label, project_sig, database_state, database):
